@@ -21,7 +21,7 @@ CREATED_BASE = 1_000_000.0  # ms
 
 @st.composite
 def message_case(draw, size_directed_share: int = 3, max_small: int = 12) -> Dict[str, Any]:
-    names = draw(gen.name_pool())
+    names = draw(gen.name_pool(root=True))
     response = draw(st.booleans())
     case: Dict[str, Any] = {
         'response': response,
@@ -93,6 +93,8 @@ def _bulk_names(rnd: random.Random, names: List[str], share: int, n: int) -> Lis
             labels = base[:-1].split('.')
             cut = rnd.randrange(len(labels))
             suffix = gen.recase('.'.join(labels[cut:]) + '.', rnd.choice([0, 0, 1, 2, 3]))
+            if suffix == '.':          # the root has no labels to share
+                suffix = ''
         else:
             suffix = rnd.choice(gen.BASE_SUFFIXES)
         lab = gen.fit_bytes('i%d' % i + rnd.choice(['', 'é', 'Ω', ' x']), rnd.choice([3, 5, 9, 20, 62, 63]))
